@@ -160,8 +160,14 @@ class Engine(Interp):
             return self.spec.dep_classes['module:pd'][name](self, recv, args, node)
         if w in ('module:logging', 'module:LOGGER', 'module:logger'):
             return None
-        if w == 'super' and name == '__init__':
-            return None     # the in-tree base classes (Instrument, Scheduling, Planning ABCs) have empty constructors
+        if w == 'super':
+            # super().m(...): the method of the first in-tree base class that defines it, on the same object
+            cur = self.fn_stack[-1].cls if self.fn_stack else None
+            for b in self.src.bases.get(cur, []):
+                fi = self.src.find_method(b.split('.')[-1], name)
+                if fi is not None:
+                    return self.exec_inline(fi, self.st.locals.get('self'), args, kwargs, node)
+            return None
         h = self.spec.dep_classes.get(w, {}).get(name)
         if h:
             self.note_assumed(f"{w}.{name}")
@@ -1033,6 +1039,9 @@ class Engine(Interp):
             et = getattr(spec, 'elem_types', {}).get(ms)
             if et and isinstance(loc, ListObj):
                 loc.elem = et
+            if et and isinstance(loc, DictObj) and et.endswith('->num') and loc.vkind != 'num':
+                loc.vkind = 'num'
+                loc.vals = z3.Const(fresh_name(f"{name}.{ms}.vals"), z3.ArraySort(I, R))
         if kind == 'range':
             i = z3.Real(fresh_name('i'))
             self.st.assume(z3.IsInt(i))
